@@ -57,6 +57,16 @@ def make_tensor(shape, t):
     x = s * np.power(2.0, e)
   elif kind == "pos":
     x = np.abs(g.standard_normal(shape)) * mag + 1e-3
+  elif kind == "at_values":
+    # values exactly ON given breakpoints (and one float32 step either side)
+    vals = np.asarray(t.get("vals", [0.33, 0.5, 0.25, 0.75, 1.0]),
+                      dtype=np.float32)
+    v = vals[g.integers(len(vals), size=shape)]
+    sgn = np.where(g.random(shape) < 0.5, np.float32(-1), np.float32(1))
+    nudge = g.integers(0, 4, size=shape)
+    v = np.where(nudge == 1, np.nextafter(v, np.float32(np.inf)), v)
+    v = np.where(nudge == 2, np.nextafter(v, np.float32(-np.inf)), v)
+    x = (sgn * v).astype(np.float32)
   elif kind == "mixed":
     x = g.standard_normal(shape) * mag
     m = g.random(shape)
